@@ -82,6 +82,32 @@ theorem pyRange_spec (s e : Int) (k : Nat) :
     (pyRange s e k).Pairwise (· < ·) :=
   ⟨mem_pyRange s e k, pyRange_ascending s e k⟩
 
+/-- a negative step: `range(s, e, -k)` is `s, s-k, …` above `e`, strictly descending (the shape
+    and Ref theorems hold for any coordinate list, hence for these too). -/
+theorem pyRangeDown_spec (s e : Int) (k : Nat) :
+    (∀ c, c ∈ pyRangeDown s e k ↔ 0 < k ∧ e < c ∧ ∃ n : Nat, c = s - n * k) ∧
+    (pyRangeDown s e k).Pairwise (· > ·) :=
+  ⟨mem_pyRangeDown s e k, pyRangeDown_descending s e k⟩
+
+/-- the extent of an undeclared rank (what `iterShape*` / the default active range of every fiber
+    of that rank use): the largest non-zero estimate `last coordinate + 1` over the rank's fibers —
+    so a narrow fiber of a ragged rank is iterated over the rank's full width; `none` (each fiber
+    falls back to its own estimate) iff every fiber of the rank is empty. -/
+theorem rankExtent_spec (sibs : List (Fib Int π)) :
+    match rankExtent sibs with
+    | none => ∀ g ∈ sibs, estShape g = 0
+    | some n => n ≠ 0 ∧ (∀ g ∈ sibs, estShape g = 0 ∨ estShape g ≤ n) ∧ ∃ g ∈ sibs, estShape g = n := by
+  have h := extFold_spec sibs (none : Option Int)
+  have e : rankExtent sibs = extFold none sibs := rfl
+  rw [e]
+  cases hres : extFold (none : Option Int) sibs with
+  | none => rw [hres] at h; exact h.2
+  | some n =>
+    rw [hres] at h
+    rcases h.2.2 with h3 | ⟨g, hg, hgn, hn0⟩
+    · cases h3
+    · exact ⟨hn0, h.2.1, g, hg, hgn⟩
+
 /-- the wrappers' ranges: `iterShape*` visits exactly `0 <= c < shape`, `iterActiveShape*`
     exactly the active range (declared, or `(0, shape)` with an unknown shape estimated from the
     last coordinate). -/
@@ -298,6 +324,21 @@ theorem project_spec (emp : π → Bool) (mk : π) (hmk : emp mk = true) (cfg : 
     project emp mk cfg k m iv none os oe f = .ok (projectSpec emp k m iv os oe f) :=
   project_startpos_spec emp mk hmk cfg k m hk iv none os oe f hs hU (fun i h => by cases h)
 
+/-- **lazy fibers as operands**: projecting (increasing transform) or pruning a lazy fiber that
+    presents the ascending list `src` — e.g. the result of an earlier `project` / `prune` —
+    delivers the non-empty elements of `src` under the transformed coordinates inside the
+    interval, resp. those the predicate accepts (rank = index among the non-empty ones). -/
+theorem project_of_lazy_spec {ρ : Type} (emp : ρ → Bool) (k : Int) (hk : 0 < k) (m : Int) (iv : Option (Int × Int))
+    (src : Fib Int ρ) (hs : Sorted src) :
+    projectOfLazy emp k m iv none src =
+      .ok ((transF k m (src.filter (fun x => !emp x.2))).filter (fun x => inIv iv x.1)) :=
+  projectOfLazy_eq emp hk m iv hs
+
+theorem prune_of_lazy_spec {ρ : Type} (emp : ρ → Bool) (pred : Nat → Int → ρ → Bool) (src : Fib Int ρ) :
+    pruneOfLazy emp pred none src =
+      .ok ((((src.filter (fun x => !emp x.2)).zipIdx).filter (fun x => pred x.2 x.1.1 x.1.2)).map (·.1)) :=
+  pruneOfLazy_eq emp pred src
+
 /-- **`prune`**: the lazy result delivers the non-empty elements of the default traversal that
     `trans_fn(i, c, p)` accepts (`i` = rank in that traversal), clipped to the range the result
     is iterated with; a legal valid shortcut changes nothing. (A `None` answer is treated like
@@ -339,6 +380,8 @@ example : strip (iterRange (fun v : Int => v == 0) (some (1 : Int)) (some 6) non
     = [(2, 5)] := by decide
 #guard (shapeRefLoop (0 : Int) [(1, 5)] (pyRange 0 3 1)) == ([(0, 0), (1, 5), (2, 0)], [(0, 0), (1, 5), (2, 0)])
 #guard pyRange (-1) 6 3 == [-1, 2, 5]
+#guard pyRangeI 5 (-1) (-2) == [5, 3, 1] && pyRangeI 0 3 (-1) == []
+#guard rankExtent [[(1, (5 : Int))], [], [(0, 6), (4, 7)]] == some 5 && rankExtent [([] : Fib Int Int)] == none
 
 /-! ### the classes repaired in /repo now meet `projectSpec`; non-vacuity of the hypotheses -/
 
